@@ -258,6 +258,8 @@ type zzSSEServer struct {
 	budget    int // how many more adverse outcomes the environment may inject
 	refused   int // reconnects answered with a non-2xx status
 	getsAfterRefusal int
+	cancel    context.CancelFunc // the caller of the pending call may give up while a reconnect is on its way
+	cancelled bool
 }
 
 var zzSrv *zzSSEServer
@@ -323,6 +325,20 @@ func zzClientDo(_ *http.Client, req *http.Request) (*http.Response, error) {
 	// would be answered as a new, unknown client)
 	vAssert(req.Method == http.MethodGet && req.Header.Get("Accept") == "text/event-stream", "C09.resume.get-asks-for-an-event-stream")
 	vAssert(req.Header.Get(sessionIDHeader) == "S1", "C11.resume.get-carries-the-session-id")
+	if s.cancelled {
+		return nil, fmt.Errorf("Get %q: %w", "http://server", context.Canceled)
+	}
+	if s.budget > 0 && s.cancel != nil && vBool("callerGivesUpDuringThisReconnect") {
+		// (C04) the caller's context ends while the GET is on its way; what the GET then reports is a race between the
+		// cancellation and whatever else was going wrong with it
+		s.budget--
+		s.cancelled = true
+		s.cancel()
+		if vBool("reportsTheTransportProblemInstead") {
+			return nil, errors.New("read tcp: connection reset by peer")
+		}
+		return nil, fmt.Errorf("Get %q: %w", "http://server", context.Canceled)
+	}
 	if s.budget > 0 && vBool("transportError") {
 		s.budget--
 		s.doErrors++
@@ -357,7 +373,17 @@ func zzC09Resume() {
 	c.sessionID = "S1"
 	forCall := &jsonrpc.Request{ID: jsonrpc2.Int64ID(99), Method: "tools/call"}
 	first := &http.Response{StatusCode: 200, Body: srv.body(0)}
-	c.handleSSE(context.Background(), "POST", first, forCall)
+	ctx, cancel := context.WithCancel(context.Background())
+	srv.cancel = cancel
+	c.handleSSE(ctx, "POST", first, forCall)
+	if srv.cancelled {
+		// a call its caller gave up on is the caller's business only: the connection, and with it every other call of
+		// the session, stays up whatever the abandoned reconnect ran into
+		vAssert(c.failure() == nil, "C04.a-call-the-caller-gave-up-on-never-fails-the-connection")
+		vReach("caller-gave-up")
+		vReach("end")
+		return
+	}
 
 	var delivered []string
 	gotResponse, synthetic := 0, 0
